@@ -97,6 +97,11 @@ func (m *monitor) runReuse(ns *rig.NatsServer, spec legSpec, legIdx, sequences i
 					if ms > 0 {
 						ctx.SetTimeout(time.Duration(ms) * time.Millisecond)
 					}
+					if (spec.Kind == "pipe" || spec.Kind == "tcp") && rng.Intn(4) == 0 {
+						d, _ := genNoDeadline(rng)
+						ctx.SetTimeout(d)
+						m.run.Add("reuse_no_deadline_timeouts", 1)
+					}
 				}
 			}
 			// response headers of this step: the first pool name always, with a
